@@ -7,6 +7,7 @@ import TinsModel.Wire.Icmp.Theorems
 import TinsModel.Wire.Transport.Theorems
 import TinsModel.Wire.App.Theorems
 import TinsModel.Wire.Wifi.Theorems
+import TinsModel.Wire.RegistryFacts
 /-
   Property C01 — parsing untrusted bytes is memory-safe and fails only as malformed-packet.
   Generic part here; the per-class `*_parse_safe` theorems live in TinsModel/Wire/<Family>/Theorems.lean
@@ -30,6 +31,25 @@ theorem cursor_safe (b : Bytes) (ops : List CursorOp) :
 theorem chain_parse_safe (h : Wire.ClassesSafe) (cls : String) (b : Bytes) :
     (Wire.parseChain (b.length + 2) cls b).Safe :=
   Wire.parseChain_entry_safe h cls b
+
+/-- **parse_any_safe** — C01 for whole packets with no hypothesis left: for EVERY modelled entry point and EVERY byte string,
+    the nested parsing constructors (any depth, any mix of the seven protocol families: link layers, IPv4/IPv6 with options and
+    extension headers, TCP/UDP/ICMP/ICMPv6, the application and 802.11 classes) never access a byte outside the caller's
+    buffer, terminate within `|b| + 2` constructor calls and throw nothing but `malformed_packet`.
+    (`Wire.registry_classesSafe` discharges `ClassesSafe` from the per-class `*_parse_safe` / `*_parse_consumes` theorems.) -/
+theorem parse_any_safe (cls : String) (b : Bytes) : (Wire.parseChain (b.length + 2) cls b).Safe :=
+  Wire.parse_any_safe cls b
+
+/-- every layer of an accepted packet satisfies its class invariant (cached option sizes exact, field widths, …) -/
+theorem parsed_layers_good (cls : String) (b : Bytes) (os : List Wire.AnyObj) (hb : b.length < 4294967296)
+    (h : Wire.parseChain (b.length + 2) cls b = .ok os) : ∀ o ∈ os, Wire.registryPreds.Good o :=
+  Wire.parsed_layers_good cls b os hb h
+
+/-- non-vacuity of `parse_any_safe`: real multi-family packets go through the modelled chain -/
+example : ∃ os, Wire.parseChain 64 "EthernetII"
+    ([1, 2, 3, 4, 5, 6, 7, 8, 9, 10, 11, 12, 0x08, 0x00] ++          -- Ethernet, IPv4
+     [0x45, 0, 0, 28, 0, 0, 0, 0, 64, 17, 0, 0, 10, 0, 0, 1, 10, 0, 0, 2] ++   -- IP, UDP
+     [0, 53, 0, 53, 0, 8, 0, 0]) = .ok os ∧ os.length = 3 := ⟨_, rfl, rfl⟩
 
 /-- non-vacuity: a concrete operation sequence that succeeds and one that is rejected -/
 example : ∃ c', (Cursor.ofBytes [1, 2, 3, 4, 5]).run [.read 2, .peek 0 2, .shrink 2, .skip 2] = .ok c' := ⟨_, rfl⟩
